@@ -33,13 +33,38 @@ def inexact_notes(outcomes, allow=()):
 
 
 def outcome_at(outcomes, val, hooks=None):
+    """The single path whose assumptions hold under *val* (assumption values
+    are memoised across paths, which share prefixes)."""
     hits = []
+    memo = {}
     for o in outcomes:
-        try:
-            if path_matches(o, val, hooks):
-                hits.append(o)
-        except Raised:
-            continue
+        ok = True
+        for term, assumed in o.assumptions:
+            key = term
+            if key not in memo:
+                try:
+                    if isinstance(term, T) and term.op == 'len':
+                        if term not in val:
+                            raise CannotEval('length assumption %s' %
+                                             show(term))
+                        memo[key] = ('len', val[term])
+                    else:
+                        memo[key] = ('v', bool(ev(term, val, hooks)))
+                except Raised:
+                    memo[key] = ('raised', None)
+            kind, got = memo[key]
+            if kind == 'raised':
+                ok = False
+                break
+            if kind == 'len':
+                if got != assumed:
+                    ok = False
+                    break
+            elif got != bool(assumed):
+                ok = False
+                break
+        if ok:
+            hits.append(o)
     if len(hits) != 1:
         raise CannotEval('%d paths match %s' % (
             len(hits), {show(k): v for k, v in val.items()}))
